@@ -15,7 +15,7 @@ from harness import common as C
 from harness import tds_stub as T
 from harness import c06
 
-PROP_MODULES = ['Andes.Props.C04']
+PROP_MODULES = ['Andes.Props.C04', 'Andes.Props.C04Order']
 RULE = ('calc_q: random argument vectors through the real Trapezoid/BackEuler.calc_q vs the rule; scripted TDS loop '
         'scenarios (step-size bounds); recorded real steps: (case, method, fixt, g_scale, honest) with every accepted '
         'step re-evaluated on a clone; distinct = distinct configuration / scenario; non-trivial = a disturbance is active')
